@@ -62,6 +62,11 @@ def _handle(req: dict) -> dict:
     pcfg.ID_DIGEST_SIZE = req.get("digest", 8)
     pcfg.RUNTIME_TYPE_CHECK = bool(req.get("rtc", False))
     if req["op"] == "build":
+        if '"Late"' in json.dumps(req["spec"]):
+            from universe import v2 as U
+
+            if "Late" not in U.CLS:
+                U.define_late()  # the class the writer defined in the middle of its run
         w = RW.World({"digest": req.get("digest", 8), "rtc": False, "gc": "exact"}, "peer")
         o = w.build(req["spec"])
         return {"cids": [x.content_id for x in RW.walk(o)]}
